@@ -76,6 +76,12 @@ claim("C11", "exploration",
   "deterministic simulation: tape-scheduled interleaving of suspended calls across instances vs lone-instance replay of the same call sequence",
   "DESIGN.md §5 C11")
 
+claim("C04", "exploration",
+  "Seeded simulation of instance graphs (2-6 instances) wired by imports of functions, a memory, a table and five globals, each defined locally or imported from any earlier instance, with imports drawn compatible or incompatible in exactly one respect; histories of writes/reads/grows from every side and through the host API, a caller holding the memory across a growing callee, and later instantiations whose segment offsets and initialisers read imported immutable globals, with out-of-bounds segments and trapping start functions. A single-copy model (one object per definition) must agree with every instance's own getters and with the host API after every step; instantiation must succeed exactly when the model's linking rule says so. A harness-owned always-moving mmap allocator (old region PROT_NONE) turns stale cached memory bases into immediate faults, and injects allocation failures. Both engines against the same model. Sampling, not proof.",
+  "Trusted: the single-copy model and module generator (valid graphs only); wazero's documented choice to ignore an out-of-bounds active element segment is modelled as such; table import minimum compared only where wazero and the specification agree.",
+  "deterministic simulation: tape-driven instance graphs and cross-instance histories vs single-copy reference model, allocator fault injection (always-move + PROT_NONE, allocation failure)",
+  "DESIGN.md §5 C04")
+
 def main():
     m = dict(version=1,
       setup_cmd="./setup.sh",
